@@ -15,7 +15,8 @@ CHECKS = {
             "faults, is executed on the real RTCMReader through a recording/fault-injecting stream "
             "double; every returned pair is checked against the source bytes and a reference frame "
             "test; plus histories of 2-3 socket connections in one process (each reader's pairs must come from "
-            "its own stream) and all depth-bounded mixes of read()/next()/for/iter() on seekable streams; "
+            "its own stream, every bufsize 1..33), seekable fault-injecting streams, junk-insertion / strip / "
+            "false-header items, and all depth-bounded mixes of read()/next()/for/iter() on seekable streams; "
             "states = distinct (cursor, reader attribute snapshot) between read() calls",
             "stream items and byte alphabet are representatives; fault count bounded"),
     "C02": ("model_checking", "E1",
@@ -37,15 +38,16 @@ CHECKS = {
             "hostile streams x error modes; oracle = exception class and bounded call count",
             "all 4096 numbers x short lengths x fills, all truncations / spliced bodies of corpus "
             "payloads and every hostile stream of the C01 alphabet under all modes, also over a real "
-            "socket subclass (plain and chunked, peer closing at every byte, receive faults); only library "
+            "socket subclass (plain and chunked, peer closing at every byte, receive faults, hostile chunk-size "
+            "lines, truncated compressed bodies), a bytearray-returning and a non-seekable buffered stream; only library "
             "exceptions may escape, ignore/log modes never raise, read-call count bounded",
             "termination is decided by a deterministic bound on stream calls per item"),
     "C05": ("fault_enumeration", "E1",
             "exhaustive enumeration of damage patterns (every single bit, pairs, bursts) x damaged "
             "subsets x error modes on the real reader",
             "streams of k distinct frames x every subset damaged x every single-bit position behind "
-            "the header (+ pair / triple / burst families) x {ignore, log, raise} x {handler, logger} x host logging "
-            "configurations",
+            "the header (+ pair / triple / burst / chosen-syndrome families) x {ignore, log, raise} x {handler kinds, "
+            "logger} x host logging configurations x five kinds of stream object",
             "multi-bit patterns are families; frame count <= 4"),
     "C06": ("exploration", "refmodel",
             "exhaustive enumeration of every whole-byte truncation of every reference payload",
@@ -56,8 +58,9 @@ CHECKS = {
             "exhaustive enumeration over payload length 2..1023 and the corpus; independent framing",
             "every length 2..1023 x 4 fills x 2 unknown numbers, all corpus payloads, known types "
             "steered to the 8/9/10-bit length boundaries and all MSM types with format-special spare "
-            "bytes, under label options 1/2/0: serialize == independently built frame, parse inverse, "
-            "repr evaluable",
+            "bytes, under label options 1/2/0 and every entry point: serialize == independently built frame, "
+            "parse inverse, repr evaluable; reader-level round trip under one read fault; all sequences of "
+            "<= 2 (3) of 13 read-only operations on one message object",
             "payload contents per length are three fills"),
     "C08": ("exploration", "E1",
             "exhaustive enumeration of messages / error patterns within stated families against two "
@@ -66,8 +69,8 @@ CHECKS = {
             "2^24 register states x input byte (every 4-byte message with a given last byte), every "
             "(position, byte) on zero/one backgrounds, every single-bit message per length; parse "
             "rejects every 1-bit error at every position for every frame length, all 2-bit errors on "
-            "short frames, 3-bit, odd and burst families, also after the same damaged bytes were parsed "
-            "with validation off",
+            "short frames, 3-bit, odd and burst families, replaced trailers, frames embedding a frame, "
+            "special-trailer frames, also after the same damaged bytes were parsed with validation off",
             "the universal detection guarantee is a theorem about the generator; enumerated families "
             "decide the implementation's agreement with it on those inputs"),
     "C09": ("exploration", "refmodel",
@@ -81,7 +84,8 @@ CHECKS = {
             "recovery by flipping every payload bit; sibling decodings of identical bits",
             "static walk of every definition; every identity x count product decoded from payloads laid "
             "out with PINNED tables (exact length, names); bit->attribute map and decoding class "
-            "recovered by exhaustive bit flips; composite/parallel families on identical block bits",
+            "and scale recovered by exhaustive bit flips / extremes; composite/parallel families on identical "
+            "block bits; IGS SSR v1 closed list",
             "pinned snapshot provenance (X cross-checked by hand-written formulas, S regression pin)"),
     "C11": ("model_checking", "E2",
             "explicit-state BFS over the real SocketWrapper (all segmentations x read sizes x fault "
@@ -104,13 +108,16 @@ CHECKS = {
             "all ordered pairs of corpus parses and depth-3 histories over a conflict set (tables "
             "unchanged, result == fresh-process reference); two real threads under a baton scheduler, "
             "every schedule with <= b pre-emptions at line granularity (bytecode granularity for some "
-            "pairs), warm and - each schedule in a freshly forked child - cold, followed by sequential parses",
+            "pairs), warm and - each schedule in a freshly forked child - cold, followed by sequential parses; "
+            "operations include readers over mixed streams, after an error and after filler frames; capacity "
+            "sweeps of ~900 distinct payloads in one process",
             "two threads; pre-emption bound; line-level points coarser than bytecode"),
     "C14": ("exploration", "corpus",
             "exhaustive enumeration of (message, attribute name, value kind) and ordered pairs",
             "every corpus message x every instance attribute name (public, private), properties and "
             "fresh names x value kinds, on messages obtained directly, from parser / file / socket readers "
-            "and through copy / deepcopy / pickle; setattr must raise RTCMMessageError, snapshot unchanged",
+            "and through copy / deepcopy / pickle; values incl. retyped copies and in-place augmented "
+            "assignment; setattr must raise RTCMMessageError, snapshot unchanged",
             "assignment = builtin setattr"),
     "C15": ("exploration", "E1",
             "bounded exhaustive enumeration of the 12-bit x 8-bit header space on the real code",
